@@ -1164,8 +1164,8 @@ fn st_recv_packet_too_large() {
     monitor(pre, &ev, &c);
     kani::cover!(l == 4, "limit one below the frame size");
     kani::cover!(l == 5, "limit equal to the frame size");
-    assert!(count(&ev, is_recv) == 0, "[C14] not delivered");
     if l < 5 {
+        assert!(count(&ev, is_recv) == 0, "[C14] a frame larger than the announced maximum is not delivered");
         let n = ev.len();
         assert!(n >= 3 && is_send(&sm(&ev, n - 3)) && is_close(&sm(&ev, n - 2)) && is_err(&sm(&ev, n - 1), MqttError::PacketTooLarge), "[C14,C19] oversize frame: DISCONNECT, close, error");
         assert!(sm(&ev, n - 3).pkt.ptype == 14 && sm(&ev, n - 3).pkt.rc == 0x95, "[C14] DISCONNECT carries Packet too large");
@@ -2041,3 +2041,4 @@ fn st_recv_suback_v5() {
 fn st_recv_unsuback_v5() {
     suback_like(3)
 }
+
